@@ -21,6 +21,9 @@ import (
 	"sync"
 	"sync/atomic"
 
+	"github.com/ohler55/ojg/gen"
+	"github.com/ohler55/ojg/oj"
+
 	"verif/harness/lib"
 )
 
@@ -236,7 +239,9 @@ type ran struct {
 	reads []int // sizes of the Read results actually delivered
 	multi bool
 	o     Outcome
-	mkey  string // model request
+	mkey  string   // model request
+	hist  []string // reused/pooled instances: the inputs (hex) the instance saw before this one
+	fresh *Outcome // reused/pooled instances: the outcome of a fresh instance on the same call
 }
 
 func chunkStr(reads []int) string {
@@ -267,18 +272,137 @@ func runAll(in []byte, idx int) []ran {
 				for _, ch := range chunkings {
 					var reads []int
 					o := v.Run(in, ch, multi, &reads)
-					runs = append(runs, ran{v, ch, reads, multi, o, "run\t" + v.Table + "\t" + mode + "\t" + v.Opts() + "\t" + chunkStr(reads)})
+					runs = append(runs, ran{v: v, ch: ch, reads: reads, multi: multi, o: o, mkey: "run\t" + v.Table + "\t" + mode + "\t" + v.Opts() + "\t" + chunkStr(reads)})
 				}
 			} else {
 				o := v.Run(in, nil, multi, nil)
-				runs = append(runs, ran{v, nil, nil, multi, o, "run\t" + v.Table + "\t" + mode + "\t" + v.Opts() + "\t-"})
+				runs = append(runs, ran{v: v, multi: multi, o: o, mkey: "run\t" + v.Table + "\t" + mode + "\t" + v.Opts() + "\t-"})
 			}
 		}
 	}
 	return runs
 }
 
+// reused holds one long-lived instance of every front-end per worker: every input is also run on it,
+// after whatever the previous inputs (valid, malformed, truncated) left behind, and through the
+// package-level pooled functions; the outcome must be that of a fresh instance (C07) and must not be
+// a panic (C06).
+type reused struct {
+	p    oj.Parser
+	v    oj.Validator
+	t    oj.Tokenizer
+	g    gen.Parser
+	hist [][]byte // the last inputs this worker processed (for the replay)
+}
+
+var reusedOf sync.Map // *lib.Driver -> *reused
+
+func reuseRuns(ru *reused, in []byte, idx int) []ran {
+	var out []ran
+	ch := []int(nil)
+	if len(in) > 1 {
+		ch = []int{1 + idx%(len(in)-1)}
+	}
+	add := func(name, like string, reader bool, f func(rec *[]int) Outcome) {
+		var reads []int
+		o := guard(func() Outcome { return f(&reads) })
+		var base *Variant
+		for i := range variants {
+			if variants[i].Name == like {
+				base = &variants[i]
+			}
+		}
+		v := &Variant{Name: name, Table: base.Table, Reader: reader, Values: base.Values}
+		optsOf := base.Opts()
+		mk := "run\t" + base.Table + "\tsingle\t" + optsOf + "\t-"
+		if reader {
+			mk = "run\t" + base.Table + "\tsingle\t" + optsOf + "\t" + chunkStr(reads)
+		}
+		multi := name == "pooled:oj.Validate"
+		var r2 []int
+		fo := base.Run(in, ch, multi, &r2)
+		out = append(out, ran{v: v, ch: ch, reads: reads, multi: false, o: o, mkey: mk, fresh: &fo})
+	}
+	add("reused:oj.Parser.Parse", "oj.Parse", false, func(_ *[]int) Outcome {
+		v, err := ru.p.Parse(in)
+		if err != nil {
+			return fromErr(err)
+		}
+		return Outcome{OK: true, Tree: lib.Render(v)}
+	})
+	add("reused:oj.Parser.ParseReader", "oj.ParseReader", true, func(rec *[]int) Outcome {
+		v, err := ru.p.ParseReader(rd(in, ch, rec))
+		if err != nil {
+			return fromErr(err)
+		}
+		return Outcome{OK: true, Tree: lib.Render(v)}
+	})
+	add("reused:oj.Validator.Validate", "oj.Validate", false, func(_ *[]int) Outcome {
+		ru.v.OnlyOne = true
+		if err := ru.v.Validate(in); err != nil {
+			return fromErr(err)
+		}
+		return Outcome{OK: true}
+	})
+	add("reused:oj.Validator.ValidateReader", "oj.ValidateReader", true, func(rec *[]int) Outcome {
+		ru.v.OnlyOne = true
+		if err := ru.v.ValidateReader(rd(in, ch, rec)); err != nil {
+			return fromErr(err)
+		}
+		return Outcome{OK: true}
+	})
+	add("reused:oj.Tokenizer.Load+Builder", "oj.Tokenizer.Load+Builder", true, func(rec *[]int) Outcome {
+		ru.t.OnlyOne = true
+		h := &buildHandler{}
+		err := ru.t.Load(rd(in, ch, rec), h)
+		return finishTrees(h.docs, false, err)
+	})
+	add("reused:gen.Parser.Parse", "gen.Parser.Parse", false, func(_ *[]int) Outcome {
+		v, err := ru.g.Parse(in)
+		if err != nil {
+			return fromErr(err)
+		}
+		return Outcome{OK: true, Tree: lib.Render(v)}
+	})
+	add("reused:gen.Parser.ParseReader", "gen.Parser.ParseReader", true, func(rec *[]int) Outcome {
+		v, err := ru.g.ParseReader(rd(in, ch, rec))
+		if err != nil {
+			return fromErr(err)
+		}
+		return Outcome{OK: true, Tree: lib.Render(v)}
+	})
+	add("pooled:oj.Parse", "oj.Parse", false, func(_ *[]int) Outcome {
+		v, err := oj.Parse(in)
+		if err != nil {
+			return fromErr(err)
+		}
+		return Outcome{OK: true, Tree: lib.Render(v)}
+	})
+	add("pooled:oj.Load", "oj.ParseReader", true, func(rec *[]int) Outcome {
+		v, err := oj.Load(rd(in, ch, rec))
+		if err != nil {
+			return fromErr(err)
+		}
+		return Outcome{OK: true, Tree: lib.Render(v)}
+	})
+	add("pooled:oj.Validate", "oj.Validate", false, func(_ *[]int) Outcome {
+		// the package-level function validates in multi-document mode: compare acceptance only when
+		// the single-document outcome is an acceptance
+		if err := oj.Validate(in); err != nil {
+			return fromErr(err)
+		}
+		return Outcome{OK: true}
+	})
+	ru.hist = append(ru.hist, in)
+	if len(ru.hist) > 4 {
+		ru.hist = ru.hist[len(ru.hist)-4:]
+	}
+	return out
+}
+
 func processBatch(d *lib.Driver, batch [][]byte) error {
+	ruAny, _ := reusedOf.LoadOrStore(d, &reused{})
+	ru := ruAny.(*reused)
 	type item struct {
 		in   []byte
 		idx  int
@@ -289,7 +413,16 @@ func processBatch(d *lib.Driver, batch [][]byte) error {
 	var reqs []string
 	for i, in := range batch {
 		idx := int(atomic.AddInt64(&inputCounter, 1))
-		it := item{in: in, idx: idx, runs: runAll(in, idx), reqs: map[string]int{}}
+		var histHex []string
+		for _, h := range ru.hist {
+			histHex = append(histHex, lib.HexF(h))
+		}
+		runs := runAll(in, idx)
+		for _, r := range reuseRuns(ru, in, idx) {
+			r.hist = histHex
+			runs = append(runs, r)
+		}
+		it := item{in: in, idx: idx, runs: runs, reqs: map[string]int{}}
 		hx := lib.HexF(in)
 		add := func(key string) {
 			if _, ok := it.reqs[key]; !ok {
@@ -433,6 +566,20 @@ func judge(in []byte, idx int, runs []ran, model map[string]string) {
 			mode = "multi"
 		}
 		desc := map[string]any{"variant": r.v.Name, "mode": mode, "chunks": r.ch, "reads": chunkStr(r.reads), "impl": r.o.String(), "spec": spec}
+		if r.fresh != nil {
+			// a reused or pooled instance: its outcome must be the fresh instance's (C07), never a panic (C06)
+			desc["history_hex"] = r.hist
+			desc["fresh"] = r.fresh.String()
+			rep.Count("reuse_runs", 1)
+			if r.o.Panic != "" {
+				finding("violation", "C06", "panic:"+r.v.Name, "front-end panicked on a reused/pooled instance: "+r.o.Panic, in, desc)
+				finding("violation", "C07", "panic:"+r.v.Name, "front-end panicked on a reused/pooled instance: "+r.o.Panic, in, desc)
+			} else if implOutcome(r.o, r.v.Values) != implOutcome(*r.fresh, r.v.Values) {
+				finding("violation", "C07", "reuse:"+r.v.Name, "a reused/pooled instance gives another outcome than a fresh one", in, desc)
+				finding("violation", "C06", "reuse:"+r.v.Name, "a reused/pooled instance gives another outcome than a fresh one (state left by an earlier call)", in, desc)
+			}
+			continue
+		}
 		split := bomSplit(r.ch)
 		rep.Count("impl."+strings.Fields(r.o.String())[0], 1)
 		// C06: no panic
